@@ -1,3 +1,53 @@
-From Verif Require Import Base Link.
-Theorem placeholder : True. Proof. exact I. Qed.
-Print Assumptions placeholder.
+(* C14 — connect/disconnect hooks are balanced; enumeration shows exactly the live links.
+   Proved here (step-level facts of Link.v; the global prefix invariant over all schedules is
+   enforced by the hook monitor and the window-level correspondence of the check, level note):
+   registration and the two connect notifications happen in one step (one critical section), in
+   the order registry-wide then per-link; removal and the two disconnect notifications likewise;
+   the set-up goroutine reaches the disconnect step only after both reader loops have returned. *)
+From Verif Require Import Base Link LinkProofs.
+
+Theorem connect_is_atomic_with_registration :
+  forall calls s,
+    exists s', step_infra fixed calls s TSetup SStart = Some s' /\ remotes s' = 1 /\
+               evs s' = EvHook true true :: EvHook true false :: evs s.
+Proof.
+  intros calls s. unfold step_infra. eexists; split; [reflexivity|].
+  assert (L : forall s0 t st, remotes (loop_again calls s0 t st) = remotes s0 /\ evs (loop_again calls s0 t st) = evs s0).
+  { intros s0 t st. unfold loop_again. destruct (memN 0%N (cancelled s0)); split; reflexivity. }
+  split.
+  - rewrite (proj1 (L _ _ _)), (proj1 (L _ _ _)). reflexivity.
+  - rewrite (proj2 (L _ _ _)), (proj2 (L _ _ _)). reflexivity.
+Qed.
+Print Assumptions connect_is_atomic_with_registration.
+
+Theorem disconnect_is_atomic_with_removal :
+  forall calls s,
+    step_infra fixed calls s TSetup SWaited =
+    Some (mkL (tset (threads s) TSetup Finished) (tbl s) (bclosed s) (ents s) (cancelled s) (fatal s)
+              (closures s) 0 (loops_done s) (flt s) (npub s) (nreq s)
+              (EvHook false true :: EvHook false false :: evs s) (crashed s)).
+Proof. reflexivity. Qed.
+Print Assumptions disconnect_is_atomic_with_removal.
+
+Theorem disconnect_waits_for_both_loops :
+  forall s, tget (threads (loop_done s)) TSetup = Some SWaited ->
+            tget (threads s) TSetup = Some SWaited \/ 2 <= S (loops_done s).
+Proof.
+  intros s H. unfold loop_done in H. cbv zeta in H.
+  destruct (Nat.leb 2 (S (loops_done s))) eqn:E.
+  - right. apply Nat.leb_le in E. exact E.
+  - left. exact H.
+Qed.
+Print Assumptions disconnect_waits_for_both_loops.
+
+(* the tree as found never calls the per-link hooks (D5) *)
+Theorem D5_refuted :
+  forall calls s, exists s', step_infra legacy calls s TSetup SStart = Some s' /\
+                             evs s' = EvHook true false :: evs s.
+Proof.
+  intros calls s. unfold step_infra. eexists; split; [reflexivity|].
+  assert (L : forall s0 t st, evs (loop_again calls s0 t st) = evs s0).
+  { intros s0 t st. unfold loop_again. destruct (memN 0%N (cancelled s0)); reflexivity. }
+  rewrite L, L. reflexivity.
+Qed.
+Print Assumptions D5_refuted.
